@@ -64,7 +64,7 @@ Section BlockFacts.
     (forall t, t0 + 100 <= t -> poll s t = None) ->
     block (O := O) poll t0 timeout_s [] s = (None, t0 + block_timer_ms timeout_s, [], s, []).
   Proof.
-    intros Hnone. unfold block. rewrite iter_until_nat.
+    intros Hnone. unfold block, block_n. rewrite iter_until_nat.
     rewrite (iter_nat_none (btick poll t0) _ (fun j => mkBst (Z.of_nat j) [] s [])).
     - cbn [b_evs b_s b_out run_due app]. reflexivity.
     - intros j _. unfold btick. cbn [b_tick b_evs b_s b_out run_due app].
@@ -76,7 +76,7 @@ Section BlockFacts.
     poll s (t0 + 100) = Some (r, s') ->
     block (O := O) poll t0 timeout_s [] s = (Some r, t0 + 100, [], s', []).
   Proof.
-    intros Hok. unfold block. rewrite iter_until_nat.
+    intros Hok. unfold block, block_n. rewrite iter_until_nat.
     rewrite (iter_nat_first (btick poll t0) 0 _ (fun j => mkBst (Z.of_nat j) [] s []) (r, mkBst 1 [] s' [])).
     - cbn [b_tick b_evs b_s b_out]. f_equal. 
     - lia.
@@ -103,7 +103,7 @@ Section BlockFacts.
       pose proof (Z.mul_succ_div_gt (te - t0) 100 ltac:(lia)). lia. }
     assert (Hi0 : 0 <= (te - t0) / 100) by (apply Z.div_pos; lia).
     split; [|unfold i; lia].
-    unfold block. rewrite iter_until_nat.
+    unfold block, block_n. rewrite iter_until_nat.
     rewrite (iter_nat_first (btick poll t0) (Z.to_nat (i - 1)) _
                (fun j => mkBst (Z.of_nat j) [(te, f)] s [])
                (r, mkBst i [] s' [fst (f s)])).
@@ -117,6 +117,57 @@ Section BlockFacts.
       replace (Z.of_nat (Z.to_nat (i - 1)) + 1) with i by (unfold i; lia).
       destruct (te <? t0 + 100 * i) eqn:E; [|apply Z.ltb_ge in E; unfold i in E; lia].
       destruct (f s) as [o s1] eqn:F. cbn [fst snd] in *. rewrite Hok. cbn [app]. reflexivity.
+  Qed.
+  (* when, at the latest, a blocked command returns -- whatever the other connections do *)
+  Lemma btick_tick t0 (st : bst (S := S) (O := O)) :
+    match btick poll t0 st with
+    | inl (_, st') => b_tick st' = b_tick st + 1
+    | inr st' => b_tick st' = b_tick st + 1
+    end.
+  Proof.
+    unfold btick. destruct (run_due (t0 + 100 * (b_tick st + 1)) (b_evs st) (b_s st)) as [[evs s] os].
+    destruct (poll s (t0 + 100 * (b_tick st + 1))) as [[r s']|]; reflexivity.
+  Qed.
+
+  Lemma iter_nat_btick_bound t0 n : forall st0 r st,
+    iter_nat n (btick (O := O) poll t0) st0 = inl (r, st) -> b_tick st0 < b_tick st <= b_tick st0 + Z.of_nat n.
+  Proof.
+    induction n as [|n IH]; intros st0 r st H; [discriminate|].
+    cbn [iter_nat] in H. pose proof (btick_tick t0 st0) as T.
+    destruct (btick poll t0 st0) as [[r1 st1]|st1].
+    - inversion H; subst. lia.
+    - apply IH in H. lia.
+  Qed.
+
+  Theorem block_n_end (t0 : Z) (nt : positive) (timer : Z) evs s res tend evs' s' outs :
+    block_n (O := O) poll t0 nt timer evs s = (res, tend, evs', s', outs) ->
+    (exists r, res = Some r /\ t0 + 100 <= tend <= t0 + 100 * Z.pos nt) \/
+    (res = None /\ tend = t0 + timer).
+  Proof.
+    unfold block_n. rewrite iter_until_nat.
+    destruct (iter_nat (Pos.to_nat nt) (btick poll t0) (mkBst 0 evs s [])) as [[r st]|st] eqn:E.
+    - intros H. injection H as <- <- <- <- <-. left. exists r. split; [reflexivity|].
+      apply iter_nat_btick_bound in E. cbn [b_tick] in E. rewrite positive_nat_Z in E.
+      match goal with |- _ <= t0 + ?m <= _ => change m with (100 * b_tick st) end. lia.
+    - destruct (run_due (t0 + timer) (b_evs st) (b_s st)) as [[e1 s1] o1].
+      intros H. injection H as <- <- <- <- <-. right. split; reflexivity.
+  Qed.
+
+  (* a command blocked with timeout t returns after the first polling period and no later than
+     t seconds after the call; it returns nil exactly then and only then; with timeout 0 the
+     "timeout" is math.MaxInt ns (292 years): it returns only when a poll succeeds *)
+  Theorem block_end (t0 timeout_s : Z) evs s res tend evs' s' outs :
+    0 <= timeout_s ->
+    block (O := O) poll t0 timeout_s evs s = (res, tend, evs', s', outs) ->
+    t0 + 100 <= tend <= t0 + block_timer_ms timeout_s /\
+    (res = None <-> tend = t0 + block_timer_ms timeout_s).
+  Proof.
+    intros Ht H. unfold block in H. apply block_n_end in H.
+    assert (B : 100 * Z.pos (block_ticks timeout_s) < block_timer_ms timeout_s /\ 100 <= block_timer_ms timeout_s).
+    { unfold block_ticks, block_timer_ms. destruct (timeout_s =? 0) eqn:E; [lia|]. apply Z.eqb_neq in E. lia. }
+    destruct H as [(r & -> & Hb)|[-> ->]].
+    - split; [lia|]. split; [discriminate|lia].
+    - split; [lia|]. split; reflexivity.
   Qed.
 End BlockFacts.
 
@@ -159,8 +210,6 @@ Proof.
   - destruct V as [V Hl]. rewrite V. cbn [as_list deadline_of].
     destruct (take_end_nonempty left l Hl) as (x & l' & TE). rewrite TE.
     rewrite take_end_model in TE.
-    assert (FIN : (served left (k :: rest) (raw_view d) (raw_view (put_list d k l')) (RArr [RBulk k; RBulk x]) -> True) -> True) by trivial.
-    clear FIN.
     destruct left; [destruct l as [|x0 l0]|destruct (rev l) as [|x0 l0]]; inversion TE; subst x0 l'; clear TE;
       (split; [|apply lupd_put]; split; [reflexivity|]; split;
        [rewrite V; apply raw_view_put_same|intros k0 N; apply raw_view_put_other; intros ->; apply N; left; reflexivity]).
